@@ -8,7 +8,7 @@ from vlib import Infra
 
 IDS = ['C18']
 KINDS = props.LEDGER_KINDS + ['wallet-status', 'unready-wallet-selectable', 'removed-residue', 'retry-after-fault-failed',
-                              'phantom-wallet', 'created-wallet-unusable', 'skipped-address-index', 'duplicate-address',
+                              'phantom-wallet', 'stuck-after-fault', 'created-wallet-unusable', 'skipped-address-index', 'duplicate-address',
                               'address-not-listed', 'quiescent-not-on-best']
 props.KINDS['C18'] = KINDS
 FAULTABLE = ('HandleBlock', 'Import', 'Remove', 'ImportStep', 'RemoveStep')
@@ -71,7 +71,7 @@ def check(pid, tier, scratch, replay):
     for k in range(2 if quick else 8):
         jobs.append(dict(u=base[0]['u'], h=[], mode='fault-addresses', opt=dict(seed=vlib.seed() + k), src='fault-addresses'))
     results = props.replay_jobs(scratch, jobs)
-    redo = [i for i, r in enumerate(results) if r is None or r.get('died')]
+    redo = [i for i, r in enumerate(results) if r is None or r.get('died') or 'stuck-after-fault' in props.kinds_of(r)]
     if redo and len(redo) <= 40:
         for i, r in zip(redo, props.replay_jobs(scratch, [jobs[i] for i in redo])):
             if r is not None and not r.get('died'):
